@@ -245,14 +245,22 @@ class LocalModelDirectoryDatabaseTransaction(ModelTransaction):
         # matching this hash only
         h = self.key.dataset_hash
         h_dir = datasets_path / DIRECTORY_INDEX / str(h)
+        curdi = None
         if h_dir.is_dir():
-            hpath = next(h_dir.iterdir())
-            # NOTE: This variable holds a string similar to "run1.csv"
-            matching_model_filename = hpath.name
-            data_path = datasets_path / matching_model_filename
-            dipath = data_path.with_suffix('.datainfo')
-            # TODO: Maybe catch FileNotFoundError and similar here (pass)
-            curdi = DataInfo.read_json(dipath)
+            for hpath in h_dir.iterdir():
+                # NOTE: This variable holds a string similar to "run1.csv"
+                matching_model_filename = hpath.name
+                data_path = datasets_path / matching_model_filename
+                dipath = data_path.with_suffix('.datainfo')
+                try:
+                    curdi = DataInfo.read_json(dipath)
+                except (OSError, ValueError):
+                    # NOTE: The datainfo is written last. If it is missing or
+                    # incomplete the store of this dataset was interrupted:
+                    # ignore the index entry and store the dataset again.
+                    continue
+                break
+        if curdi is not None:
             # NOTE: Paths are not compared here
             if curdi == model.datainfo:
                 datainfo = model.datainfo.replace(path=curdi.path)
@@ -271,18 +279,21 @@ class LocalModelDirectoryDatabaseTransaction(ModelTransaction):
             dataset_basename = f'data{highest + 1}'
             dataset_filename = f'{dataset_basename}.csv'
 
-            # NOTE: Create the index file at .datasets/.hash/<hash>/<dataset_filename>
-            index_path = h_dir / dataset_filename
-            index_path.touch()
-
             data_path = path_absolute(datasets_path / dataset_filename)
             datainfo = model.datainfo.replace(path=data_path)
             model = model.replace(datainfo=datainfo)
             model = write_csv(model, path=data_path, force=True)
 
-            # NOTE: Write datainfo last so that we are "sure" dataset is there
-            # if datainfo is there
+            # NOTE: Write datainfo after the dataset so that we are "sure"
+            # dataset is there if datainfo is there
             model.datainfo.to_json(datasets_path / (dataset_basename + '.datainfo'))
+
+            # NOTE: Create the index file at .datasets/.hash/<hash>/<dataset_filename>
+            # last: an index entry must never name a file that is not (yet) the
+            # dataset with this hash, since file numbers of interrupted stores
+            # can be taken by other datasets.
+            index_path = h_dir / dataset_filename
+            index_path.touch()
 
         # NOTE: Write the model
         model_path.mkdir(exist_ok=True)
